@@ -26,7 +26,7 @@ fn gen_cfg(tier: Tier) -> GenCfg {
     cfg.w_len.huge = 0;
     cfg.w_len.fileish = 12;
     cfg.w_len.blockish = 22;
-    cfg.w_special_names = 0;
+    cfg.w_special_names = 2;
     cfg
 }
 
